@@ -170,4 +170,5 @@ def run(chk, tier):
     from . import shared
     shared.max_pdu(chk, fx, "reply-sendable")
     shared.pdata_reader_other_pdus_fail(chk, fx, "abort-during-data-is-an-error")
+    shared.pdata_reader_error_kinds(chk, fx, "abort-during-data-is-not-an-eof")
     chk.undecided.append("conformance of arbitrary interleavings of the two peers with the PS3.8 state machine (a model-checking question)")
